@@ -73,7 +73,7 @@ class MomentIntermediate:
         else:
             out = mod._compute_multipole_moment_integrals_intermediate(C, om, A, am, ea, B, bm, eb)
         fr.check(M, "intermediate", out)
-        M.true("intermediate/shape", tuple(out.shape) == (om + 1, bm + 1, am + 1, 3, eb.size, ea.size), str(out.shape))
+        out = M.shaped("intermediate/shape", out, (om + 1, bm + 1, am + 1, 3, eb.size, ea.size))
         sA, sB, sC, sa, sb = map(M.to_spec, (A, B, C, ea, eb))
         for pa in range(ea.size):
             for pb in range(eb.size):
